@@ -303,6 +303,8 @@ class VerifContext:
         return SBool(z3.Exists([k], z3.And(rng, bt)))
 
     def sorted_model(self, interp, x, kwargs):
+        if isinstance(x, dict) and not any(is_sym(k) or isinstance(k, Sym) for k in x):
+            x = list(x)            # sorted(d) sorts the keys; symbolic *values* play no part
         if not is_sym(x) and not isinstance(x, Sym):
             key = kwargs.get("key")
             items = list(x)
@@ -346,6 +348,10 @@ class VerifContext:
 
     def strip_string(self, interp, s, chars):
         raise Unsupported("strip of symbolic string")
+
+    def str_replace(self, interp, s, old, new):
+        """domain model of str.replace on a structured string; None = use the generic (exact or fail-closed) model"""
+        return None
 
     def strip_side(self, interp, s, which, chars):
         raise Unsupported(f"str.{which} on symbolic string")
